@@ -220,6 +220,7 @@ var (
 	c08LineRe  = regexp.MustCompile(`^(\d+)\s+(.*)$`)
 	c08FdRe    = regexp.MustCompile(`^(\d+)<([^>]*)>`)
 	c08RetFdRe = regexp.MustCompile(`=\s*(\d+)<([^>]*)>\s*$`)
+	c08OkRe    = regexp.MustCompile(`\)\s*=\s*\d+(<[^>]*>)?\s*$`)
 )
 
 func c08Unescape(s string) []byte {
@@ -300,7 +301,8 @@ func c08ParseTrace(path, dir string) ([]c08Op, error) {
 			continue
 		}
 		name, args := rest[:p], rest[p+1:]
-		ok := strings.Contains(rest, ") = 0") || c08RetFdRe.MatchString(rest) || regexp.MustCompile(`\) = \d+\s*$`).MatchString(rest)
+		// successful calls only ("= <n>" or "= <fd><path>"; resumed lines pad with blanks)
+		ok := c08OkRe.MatchString(rest)
 		if !ok {
 			continue
 		}
@@ -446,6 +448,12 @@ type c08Parent struct {
 // reopen materialises the image, opens it with the real Storer and records
 // what it answers; the monitor checks the answers against the source.
 func (p *c08Parent) reopen(im c08Image, verify bool, what string, script string) {
+	p.reopenAlt(im, verify, what, script, -1, -1)
+}
+
+// reopenAlt: alteredLeft >= 0 names the segment whose file was altered (a
+// verifying reader must not deliver a single byte of it).
+func (p *c08Parent) reopenAlt(im c08Image, verify bool, what string, script string, alteredLeft, alteredRight int64) {
 	p.n++
 	root := filepath.Join(p.tmp, fmt.Sprintf("i%d", p.n))
 	dir := filepath.Join(root, c08RunId)
@@ -541,6 +549,10 @@ func (p *c08Parent) reopen(im c08Image, verify bool, what string, script string)
 				p.s.Violate("served-wrong-byte", fmt.Sprintf("after re-opening, offset %d is served as %02x, the source sent %02x", o+int64(k), b, c08Src(p.salt, o+int64(k))), replay)
 				break
 			}
+		}
+		// ---- monitor: a verifying reader delivers nothing from an altered closed segment
+		if verify && alteredLeft >= 0 && o < alteredRight && o+int64(len(data)) > alteredLeft && len(data) > 0 {
+			p.s.Violate("altered-segment-accepted", fmt.Sprintf("segment %d.aof was altered (%s) but a verifying reader opened at %d delivered %d bytes reaching into it", alteredLeft, what, o, len(data)), replay)
 		}
 		// ---- monitor: the reported range is one contiguous range of held bytes
 		if !verify && (end != "eof" || int64(len(data)) != r-o) {
@@ -658,6 +670,31 @@ func TestVerifC08(t *testing.T) {
 			s.Violate("trace-unparsed", err.Error(), map[string]interface{}{"script": script})
 			return
 		}
+		// sanity of the trace itself: every byte the script feeds must show up as
+		// written (strace occasionally splits a line; a lost line must not pass as
+		// a behaviour of the code)
+		fed, seen := 0, 0
+		for _, op := range strings.Split(script, ";") {
+			f := strings.Fields(op)
+			if len(f) == 2 && (f[0] == "drdba" || f[0] == "daofa") {
+				fed += len(vfutil.UnHex(f[1]))
+			}
+		}
+		for _, o := range ops {
+			if o.kind == "append" && !(len(o.data) == headerSize && strings.HasSuffix(o.name, ".aof") && o.data[0] == 1 && string(o.data[1:]) == string(make([]byte, 15))) {
+				seen += len(o.data)
+			}
+		}
+		if fed != seen {
+			if keep := os.Getenv("VERIF_C08_KEEP"); keep != "" {
+				b, _ := os.ReadFile(trace)
+				os.WriteFile(keep, b, 0o644)
+			}
+			s.Count("trace_incomplete")
+			s.Violate("trace-incomplete", fmt.Sprintf("the script feeds %d bytes, the parsed trace shows %d", fed, seen), map[string]interface{}{"script": script})
+			os.RemoveAll(root)
+			return
+		}
 		os.RemoveAll(root)
 		// (1) the writers' file operations, op for op
 		lines := make([]string, len(ops))
@@ -726,7 +763,8 @@ func (p *c08Parent) crashImages(ops []c08Op, script string) {
 			alter := func(what string, f func(c []byte) []byte) {
 				a := im.clone()
 				a[name] = f(append([]byte(nil), b...))
-				p.reopen(a, true, "altered_"+what, script)
+				left, _ := strconv.ParseInt(strings.TrimSuffix(name, ".aof"), 10, 64)
+				p.reopenAlt(a, true, "altered_"+what, script, left, left+int64(len(b)-headerSize))
 				s.Count("alterations")
 			}
 			alter("data", func(c []byte) []byte { c[headerSize+p.r.Intn(len(c)-headerSize)] ^= byte(1 << p.r.Intn(8)); return c })
